@@ -20,7 +20,12 @@ THEOREMS = ["C13_split_indep", "C13_compositions", "C13_card_any_insertion", "C1
             "C13_counter_exact", "C13_hist_spec", "C13_rare_spec", "C13_rare_checker_sound", "C13_rare_model_ok",
             "C13_missing_cells", "C13_coverage", "C13_coverage_annotation", "C13_mean_nonneg", "C13_symbols_split",
             "C13_prefix_refuted", "C13_frame_none_free", "C13_split_indep_direct", "C13_none_cells_refuted",
-            "C13_frames_fill", "C13_split_indep_parsed", "C13_parsed_card"]
+            "C13_frames_fill", "C13_split_indep_parsed", "C13_parsed_card",
+            "C13_hist_general", "C13_counter_general", "C13_counted_prefix", "C13_hist_all_rows_partial",
+            "C13_hist_all_rows_refuted", "C13_sketch_bridge", "C13_card_bridge", "C13_counter_bridge",
+            "C13_card_any_insertion_both_phases", "C13_card_split_indep_cold"]
+DEFAULT_EDGES = [0, 1, 10, 100, 1000, 10000, 100000]
+REAL_CAP, REAL_P = 2 ** 18, 19
 
 COV_TOL = 1e-9          # per-batch coverage: float (1 - m/n) * 100 against the exact rational
 TIE_TOL = 1e-9          # annotation excluded when the exact mean is this close to k + 0.95 (the only ties that matter)
@@ -95,9 +100,16 @@ def make_case(rng, n, ncols, splits, family, rich=False, smallcap=None, via=None
     columns = [gen_column(rng, n, syms, rich) for _ in range(ncols)]
     if via != "pipeline":
         columns = [add_none(rng, c) for c in columns]
-    rows = [[columns[j][i] for j in range(ncols)] for i in range(n)]
     if via is None:
         via = "batch" if rng.random() < 0.25 else "direct"
+    if via == "direct":
+        # the statistics run on the ENRICHED frame: numeric columns (ints / floats, as the noise baseline features);
+        # homogeneous per column, no None, no nan, no -0.0
+        for j in range(ncols):
+            if rng.random() < 0.2:
+                pool = rng.choice([[0, 0, 1, 2, 3, 7, 12], [0.0, 0.0, 0.5, 1.25, 2.0, 3.5]])
+                columns[j] = [rng.choice(pool) for _ in range(n)]
+    rows = [[columns[j][i] for j in range(ncols)] for i in range(n)]
     return {"cols": cols, "rows": rows, "splits": splits, "thr": thr, "bound": bound, "syms": syms,
             "smallcap": smallcap, "via": via, "family": family}
 
@@ -114,8 +126,11 @@ def gen_medium(rng, nsplits, smallcap=False):
         c = random_composition(rng, n)
         if c not in sp:
             sp.append(c)
-    return make_case(rng, n, rng.randint(2, 5), sp, "smallcap" if smallcap else "random-compositions", rich=smallcap,
-                     smallcap=rng.randint(1, 6) if smallcap else None)
+    c = make_case(rng, n, rng.randint(2, 5), sp, "smallcap" if smallcap else "random-compositions", rich=smallcap,
+                  smallcap=rng.randint(1, 6) if smallcap else None)
+    if smallcap:
+        c["sketch_p"] = rng.randint(3, 6)      # 8..64 registers: the converted phase is cheap and sensitive to one lost value
+    return c
 
 
 def gen_rounding_big(rng):
@@ -222,6 +237,14 @@ def fixed_cases():
         {"cols": ["f0", "f1"], "rows": [["a", "p"], ["b", "q"], ["a", "r"], ["c", "s"], ["a", "p"], ["b", ""]],
          "splits": [[6], [2, 4], [1, 1, 1, 1, 1, 1]], "thr": 1, "bound": 30000, "syms": ",{}", "smallcap": 3, "via": "direct",
          "family": "fixed"},
+        # converted sketch, 32 registers: the value that triggers the conversion must not be lost (seeded C13-D)
+        {"cols": ["f0"], "rows": [["v%d" % i] for i in (0, 1, 2, 0, 3, 4, 5, 1, 6, 7, 8, 9)], "splits": [[12], [3, 9], [4, 8], [1] * 12, [5, 7]],
+         "thr": 1, "bound": 30000, "syms": ",{}", "smallcap": 3, "sketch_p": 5, "via": "direct", "family": "fixed"},
+        {"cols": ["f0", "f1"], "rows": [["v%d" % (i % 7), "w%d" % i] for i in range(10)], "splits": [[10], [2, 8], [5, 5], [1] * 10],
+         "thr": 1, "bound": 3, "syms": ",{}", "smallcap": 2, "sketch_p": 6, "via": "batch", "family": "fixed"},
+        # numeric cells (enriched frame): 0 and 0.0 are dropped by `if unique_value:`, numbers are keys of their own
+        {"cols": ["n", "x", "s"], "rows": [[0, 0.0, "0"], [3, 0.5, ""], [0, 0.5, "0"], [7, 2.0, "3"], [3, 0.0, ""]],
+         "splits": [[5], [2, 3], [1] * 5], "thr": 1, "bound": 30000, "syms": ",{},0", "smallcap": None, "via": "direct", "family": "fixed"},
         # markers other than '' are values for the sketch; all-empty column has cardinality 0
         {"cols": ["f0", "f1"], "rows": [["NA", ""], ["-", ""], ["NA", ""], ["", ""]], "splits": [[4], [1, 3], [2, 2]],
          "thr": 5, "bound": 30000, "syms": "NA,-", "smallcap": None, "via": "direct", "family": "fixed"},
@@ -253,7 +276,7 @@ def generate(run):
     rng = run.rng
     cases = fixed_cases()
     if run.tier == "quick":
-        plan = dict(small=120, nmax=5, medium=90, nsplits=7, smallcap=25, big=6, steered=60, pipeline=20, vw=25, many=1)
+        plan = dict(small=100, nmax=5, medium=75, nsplits=7, smallcap=25, big=5, steered=50, pipeline=20, vw=25, many=1)
     else:
         plan = dict(small=900, nmax=6, medium=600, nsplits=14, smallcap=160, big=40, steered=400, pipeline=150, vw=200, many=4)
     for _ in range(plan["small"]):
@@ -283,7 +306,13 @@ def slit(s):
 
 
 def cell_lit(v):
-    return "None" if v is None else "(Some %s)" % slit(v)
+    if v is None:
+        return "None"
+    if isinstance(v, str):
+        return "(Some (V %s))" % slit(v)
+    if isinstance(v, (int, float)) and not isinstance(v, bool):
+        return "(Some (Num %s %s))" % (slit(str(v)), vlib.blit(bool(v)))
+    raise ValueError("cell of unexpected type: %r" % (v,))
 
 
 def rows_lit(rows):
@@ -298,12 +327,15 @@ def val_lit(e):
         return "NaN"
     if e[0] == "none":
         return "PyNone"
+    if e[0] == "num":
+        return "(Num %s%%N %s)" % (slit(e[1]), vlib.blit(e[2]))
     raise ValueError("key of unexpected type: %r" % (e,))
 
 
 def val_dec(tag_s):
     tag, codes = tag_s
-    return {0: ("s", vlib.from_codes(codes)), 1: ("nan",), 2: ("none",)}[tag]
+    return {0: ("s", vlib.from_codes(codes)), 1: ("nan",), 2: ("none",), 3: ("num", vlib.from_codes(codes), True),
+            4: ("num", vlib.from_codes(codes), False)}[tag]
 
 
 def is_pipeline(case):
@@ -315,9 +347,12 @@ def coq_expr(case, r, edges, cap):
     cols = case["cols"]
     idx = {c: j for j, c in enumerate(cols)}
     hashtab = "[" + "; ".join("(%s%%N, %d%%N)" % (slit(v), h) for v, h in r["hashes"]) + "]"
-    mk = "(mkCase %d%%nat %s %s %s %s %s %s%%N %s %s)" % (
+    sk = r["histories"][0]["sketch"][cols[0]]
+    h2tab = "[" + "; ".join("(%d, %d)" % (a, b) for a, b in r["h2"]) + "]%N"
+    mk = "(mkCase %d%%nat %s %s %s %s %s (Z.to_nat %s) %s%%N %s %s %d%%N %d%%N %s)" % (
         len(cols), vlib.blit(is_pipeline(case)), rows_lit(case["rows"]), vlib.zlit(case["thr"]), vlib.zlit(case["bound"]), vlib.zlit(cap),
-        slit(case["syms"]), vlib.zlist(edges), hashtab)
+        vlib.zlit(cap),
+        slit(case["syms"]), vlib.zlist(edges), hashtab, sk["p"], sk["width"], h2tab)
     sizes = "[" + "; ".join(vlib.nlist(s) for s in case["splits"]) + "]%nat"
     obs = []
     for h in r["histories"]:
@@ -347,6 +382,7 @@ def sub_case(case, split_idx):
 
 
 EXTRACT = {"error": None}
+CONSTS = {}
 
 
 def evaluate(cases, stats=None):
@@ -357,6 +393,8 @@ def evaluate(cases, stats=None):
         # observation point lost: the runner fell back to replicated statements; keep searching for a failing input
         EXTRACT["error"] = res["extract_error"]
     results = res["results"]
+    if res.get("constants"):
+        CONSTS.update(res["constants"])
     problems = [[] for _ in cases]
     infos = [dict() for _ in cases]
     exprs, eidx = [], []
@@ -397,6 +435,9 @@ def evaluate(cases, stats=None):
             problems[i].append(dict(clause="value_repetitions.json has one entry per feature with the same integer bucket edges",
                                     obligation="correspondence:histogram", splits=[0], impl=str(e), model=None))
             continue
+        if edges != DEFAULT_EDGES:
+            problems[i].append(dict(clause="value_repetitions.json reports the buckets 'more than 0, 1, 10, ..., 10^5 occurrences'",
+                                    obligation="C13_hist_general", splits=[0], impl=edges, model=DEFAULT_EDGES))
         caps = {h["sketch"][c]["warmup_size"] for h in r["histories"] for c in cols}
         cap = caps.pop()
         meta[i] = (edges, cap)
@@ -425,6 +466,20 @@ def evaluate(cases, stats=None):
     return problems, infos
 
 
+def lc_accept(p, z):
+    """what __len__ may return for z empty registers: int(ceil(m ln(m/z))) - 1 (2^p for z = 0); both neighbours when the
+    float value is within 1e-9 of an integer"""
+    import math
+    m = 1 << p
+    if z == 0:
+        return {m}
+    x = m * math.log(m / z)
+    out = {int(math.ceil(x)) - 1}
+    if abs(x - round(x)) < 1e-9:
+        out |= {int(round(x)) - 1, int(round(x))}
+    return out
+
+
 def compare_case(case, r, v, meta, probs, info):
     edges, cap = meta
     cols = case["cols"]
@@ -450,42 +505,49 @@ def compare_case(case, r, v, meta, probs, info):
         mcols, mrare = m
         vcards, vhists, vrare = verdict
         for j, c in enumerate(cols):
-            mcard, mhist, mcovs, mmean, mann = mcols[j]
-            mcard = opt(mcard)
-            scard, sdistinct, shist = spec[j]
-            scard, shist = opt(scard), opt(shist)
+            mtag, mval, mhist, mcovs, mmean, mann = mcols[j]          # Coq prints left-nested pairs flat
+            mcard = (mtag, mval)
+            stag, sval, sdistinct, shist, swhole = spec[j]
+            scard = (stag, sval)
             icard, iann = h["annotation"][j]
             sk = h["sketch"][c]
-            # cardinality
+            claim = not colnone[j]
+            # cardinality, both phases: (0, n) exact / (1, z) registers empty -> int(ceil(m ln(m/z))) - 1
             if icard != sk["len"]:
                 add("annotation shows len(sketch)", "correspondence:cardinality", [k], h["names"], sk)
-            if mcard is None:
-                info["cold"] += 1
-            else:
-                if sk["cold"] or icard != mcard:
-                    add("cardinality while warm = number of distinct hashes of the non-empty cells (model)",
-                        "correspondence:cardinality", [k], dict(column=c, annotation=icard, sketch=sk), mcard)
-                if injective and not colnone[j] and sdistinct <= cap and icard != sdistinct:
-                    add("C13_card_exact: annotation = exact number of distinct non-empty values",
-                        "C13_card_exact", [k], dict(column=c, annotation=icard), sdistinct)
-            if not vcards[j] and not colnone[j]:
-                add("C13_check: cardinality differs from card_spec of the whole column", "C13_card_function_of_rows", [k],
+            for what, (tag, val), obl in (("model of the history", mcard, "correspondence:cardinality"),
+                                         ("specification of the concatenated column (C13_card_any_insertion_both_phases)",
+                                          scard, "C13_card_split_indep_cold")):
+                if what.startswith("spec") and not claim:
+                    continue
+                if tag == 0:
+                    if sk["cold"] or icard != val:
+                        add("cardinality while warm = number of distinct hashes of the truthy cells (%s)" % what, obl, [k],
+                            dict(column=c, annotation=icard, sketch=sk), val)
+                else:
+                    info["cold"] += 1 if what.startswith("model") else 0
+                    if (not sk["cold"]) or icard not in lc_accept(sk["p"], val):
+                        add("cardinality after the conversion = linear counting of the empty registers of the sketch fed with the "
+                            "set of truthy cells (%s)" % what, obl, [k], dict(column=c, annotation=icard, sketch=sk),
+                            dict(empty_registers=val, accepted=sorted(lc_accept(sk["p"], val))))
+            if injective and claim and sdistinct <= cap and icard != sdistinct:
+                add("C13_card_exact: annotation = exact number of distinct non-empty values",
+                    "C13_card_exact", [k], dict(column=c, annotation=icard), sdistinct)
+            if not vcards[j] and claim:
+                add("C13_check: cardinality differs from the specification of the whole column", "C13_card_function_of_rows", [k],
                     dict(column=c, annotation=icard), scard)
-            # histogram
+            # histogram: for every column the exact histogram of the counted prefix (C13_hist_general)
             ihist = [h["hist"][c][str(e)] for e in edges]
-            if colnone[j]:
-                if ihist != list(mhist):
-                    add("histogram of a column with None cells = model of the frame contents (nan / None keys)", "correspondence:histogram",
-                        [k], dict(column=c, hist=ihist, counter=h["counter"][c]), dict(model=mhist))
-            elif shist is not None:
-                if ihist != list(mhist) or ihist != list(shist):
-                    add("C13_hist_spec: bucket(x) = #{v | count v > x} (distinct < bound)", "C13_hist_spec", [k],
-                        dict(column=c, hist=ihist, counter=h["counter"][c]), dict(model=mhist, spec=shist))
-            else:
-                info["beyond_bound"] += 1
-                info["beyond_bound_model_agrees"] += 1 if ihist == list(mhist) else 0
-            if not vhists[j] and not colnone[j]:
-                add("C13_check: histogram differs from hist_spec", "C13_hist_spec", [k], dict(column=c, hist=ihist), shist)
+            if ihist != list(mhist):
+                add("histogram = histogram of the counter fed cell by cell (model of the history)", "correspondence:histogram",
+                    [k], dict(column=c, hist=ihist, counter=h["counter"][c]), dict(model=mhist))
+            if claim:
+                if ihist != list(shist) or not vhists[j]:
+                    add("C13_hist_general: bucket(x) = #{v | count v > x} over the column up to the arrival of the bound-th distinct "
+                        "value" + (" (= all consumed rows: C13_hist_spec)" if swhole else ""), "C13_hist_general", [k],
+                        dict(column=c, hist=ihist, counter=h["counter"][c]), dict(spec=shist, whole_column=swhole))
+                if not swhole:
+                    info["beyond_bound"] += 1
             # coverage
             icov = h["coverage"][c]
             if len(icov) != len(sizes):
@@ -505,8 +567,8 @@ def compare_case(case, r, v, meta, probs, info):
                     add("C13_coverage_annotation: int(round(mean of batch percentages, 1))", "C13_coverage_annotation", [k],
                         dict(column=c, annotation=iann, batch_coverages=icov), dict(annotation=mann, mean=str(mean)))
         # rare values
-        irare = sorted((idx[kk[0]], tuple(kk[1]), kk[2]) for kk in h["rare"])
-        mr = sorted((e[0], val_dec(e[1]), e[2]) for e in mrare)
+        irare = sorted(((idx[kk[0]], tuple(kk[1]), kk[2]) for kk in h["rare"]), key=repr)
+        mr = sorted(((e[0], val_dec(e[1]), e[2]) for e in mrare), key=repr)
         if irare != mr or (not vrare and not tablenone):
             add("C13_rare_spec: report = {((col, v), total) | 1 <= total <= thr}", "C13_rare_spec", [k],
                 dict(rare=h["rare"], ignored=h["ignored"]), [[cols[a], list(b), c_] for a, b, c_ in mr])
@@ -516,20 +578,24 @@ def compare_case(case, r, v, meta, probs, info):
             else:
                 info["writer_ran"] += 1
                 frows = sorted(tuple(x) for x in h["rare_file"]["rows"])
-                want = sorted((kk[0], kk[1][1] if kk[1][0] == "s" else "", str(kk[2])) for kk in h["rare"])
-                if frows != want:
+                if any(kk[1][0] == "num" for kk in h["rare"]):
+                    # numbers of the enriched frame: pandas formats a mixed value column (3 / 3.0 next to nan) its own way
+                    frows = None
+                    info["writer_numeric_skipped"] = info.get("writer_numeric_skipped", 0) + 1
+                want = sorted((kk[0], kk[1][1] if kk[1][0] in ("s", "num") else "", str(kk[2])) for kk in h["rare"])
+                if frows is not None and frows != want:
                     add("rare_values.tsv holds exactly the (feature, value, count) entries of the report",
                         "correspondence:rare_values.tsv", [k], h["rare_file"], want)
                 if h["rare_writer_error"]:
                     info["writer_late_errors"] += 1
         else:
             info["empty_report"] += 1
-        full = (tuple(None if s["cold"] else s["len"] for s in (h["sketch"][c] for c in cols)),
+        full = (tuple((s["cold"], s["len"]) for s in (h["sketch"][c] for c in cols)),
                 tuple(tuple(h["hist"][c][str(e)] for e in edges) for c in cols), tuple(irare))
         fulls.append(full)
         canon.append((tuple(None if colnone[j] else x for j, x in enumerate(full[0])),
                       tuple(None if colnone[j] else x for j, x in enumerate(full[1])),
-                      tuple(x for x in irare if x[1][0] == "s")))
+                      tuple(x for x in irare if x[1][0] in ("s", "num"))))
     if tablenone and any(f != fulls[0] for f in fulls[1:]):
         info["none_split_dependent"] = 1
     # split independence observed on the implementation alone
@@ -721,6 +787,34 @@ def check(run, replay):
         run.violation("counterexample", "C13_card_exact", case=next(c for c, i in zip(cases, infos) if i and not i.get("injective", True)),
                       impl="internal_hash collides on the values of %d of %d tables" % (collisions, len(cases)), model=None,
                       clause="cardinality exact up to 32-bit hash collisions: collisions far above the 32-bit rate")
+    # the constants the property names, held to the SOURCE (ast in the runner) and to the Coq constants
+    try:
+        kc = vlib.coq_eval("C13k", HEADER, ["(warmup_capacity, Z.of_N sketch_p, default_edges)"])[0]
+        coq_consts_ok = (kc[0] == REAL_CAP and kc[1] == REAL_P and list(kc[2]) == DEFAULT_EDGES)
+    except vlib.Broken:
+        coq_consts_ok = False
+    src_edges = CONSTS.get("edges")
+    src_sk = CONSTS.get("sketch") or CONSTS.get("sketch_instance")
+    if src_edges is None:
+        run.notes.append("histogram levels not located in the source (%s): held to the keys of the value_repetitions.json every "
+                         "history wrote instead (correspondence)" % CONSTS.get("edges_note"))
+    if CONSTS.get("sketch") is None:
+        run.notes.append("sketch constants not evaluable from HyperLogLogWCache.__init__ (%s): a fresh instance's attributes used"
+                         % CONSTS.get("sketch_note"))
+    ok_edges = coq_consts_ok and (src_edges is None or src_edges == DEFAULT_EDGES)
+    ok_cap = coq_consts_ok and src_sk is not None and src_sk.get("warmup_size") == REAL_CAP and src_sk.get("p") == REAL_P \
+        and (CONSTS.get("sketch_instance") in (None, CONSTS.get("sketch")) or CONSTS.get("sketch") is None)
+    run.oblige("translator:histogram levels in task_ranking.py = [0,1,10,...,10^5] = Quality.default_edges", ok_edges,
+               "" if ok_edges else "source: %r" % (src_edges,))
+    run.oblige("translator:sketch warm-up capacity 2^18 (p = 19) in counting_ultiloglog.py = Quality.warmup_capacity", ok_cap,
+               "" if ok_cap else "source: %r instance: %r" % (CONSTS.get("sketch"), CONSTS.get("sketch_instance")))
+    if replay is None:
+        if not ok_edges and not any(p["obligation"] == "C13_hist_general" for ps in problems for p in ps):
+            run.violation("broken-obligation", "translator:histogram levels", found_input=False, extra="source levels %r" % (src_edges,))
+        if not ok_cap:
+            run.violation("broken-obligation", "translator:sketch warm-up capacity", found_input=False,
+                          extra="source %r instance %r; the property states exactness below 2^18 distinct values"
+                          % (CONSTS.get("sketch"), CONSTS.get("sketch_instance")))
     run.oblige("translator:annotation and value_repetitions statements of task_ranking.py located and executed",
                EXTRACT["error"] is None, EXTRACT["error"] or "")
     if EXTRACT["error"] and not run.violations:
@@ -733,9 +827,8 @@ def check(run, replay):
     run.cov["input_distribution"] = hist
     run.cov["tables"] = len(cases)
     run.cov["coverage_annotations_excluded_near_a_rounding_tie"] = agg["ties"]
-    run.cov["columns_beyond_sketch_capacity_no_claim"] = agg["cold"]
-    run.cov["columns_at_or_beyond_counter_bound_no_claim"] = agg["beyond_bound"]
-    run.cov["  of_which_model_of_the_real_counter_agrees"] = agg["beyond_bound_model_agrees"]
+    run.cov["column_histories_with_a_converted_sketch_compared_with_linear_counting_of_the_model_registers"] = agg["cold"]
+    run.cov["column_histories_at_or_beyond_the_counter_bound_asserted_in_prefix_form"] = agg["beyond_bound"]
     run.cov["rare_values_tsv_written_and_compared"] = agg["writer_ran"]
     run.cov["empty_reports_writer_not_called"] = agg["empty_report"]
     run.cov["writer_errors_after_rare_values_tsv_was_written"] = agg["writer_late_errors"]
@@ -754,9 +847,11 @@ def check(run, replay):
     run.assumptions += [
         "cells are Python str (what generic_line_parser yields); column names distinct",
         "internal_hash is tabulated from the real function on the table's values; exactness is claimed where it is injective on them",
-        "sketches stay in the warm phase (real capacity 2^18, or a harness-set small warmup_size on pre-created instances); "
-        "converted sketches are not compared (C14)",
-        "columns with distinct >= max_unique_hist_constraint: histogram compared across splits only (C13 claims exactness below the bound)",
+        "sketches: real size (p = 19, capacity 2^18; the tables keep them warm) or harness-set small p/m/width/warmup_size on "
+        "pre-created instances; converted sketches are compared with linear counting (float, ceil tie accepted) of the empty "
+        "registers of C14's model fed with the set of truthy cells, the sketch's own hash xxh32(seed = p) tabulated per case",
+        "histogram asserted for every column in the prefix form of C13_hist_general (below the bound = all consumed rows)",
+        "numeric cells (enriched frame): homogeneous int or float columns without None / nan / -0.0; a number is its str() and its truth value",
         "coverage floats compared to the exact rational within 1e-9; annotations whose exact mean is within 1e-9 of k+0.95 excluded",
         "module globals reset by the harness between histories",
     ]
